@@ -57,6 +57,9 @@ type Hub struct {
 
 	hasStarted bool
 
+	// set by Shutdown, no new connections are initiated afterwards
+	isShutdown bool
+
 	muxCon        sync.Mutex
 	muxConAttempt sync.Mutex
 	muxReg        sync.Mutex
@@ -107,6 +110,10 @@ func (h *Hub) Start() {
 
 // close all connections
 func (h *Hub) Shutdown() {
+	h.muxStarted.Lock()
+	h.isShutdown = true
+	h.muxStarted.Unlock()
+
 	h.mdns.Shutdown()
 
 	// closing a connection removes it from h.connections (HandleConnectionClosed),
